@@ -37,6 +37,10 @@ type stateWalk struct {
 	sleepDur   uint16
 	ka         uint16
 	everActive bool
+	// the broker's CONNACK(accepted) has reached the gateway but the client's CONNACK has not been
+	// sent yet: a slow gateway may be active inside already (what it does with the next packet, and
+	// whether it owes the client a DISCONNECT, can go either way)
+	maybeActive bool
 }
 
 func (w *stateWalk) step(e Ev) {
@@ -63,12 +67,17 @@ func (w *stateWalk) step(e Ev) {
 				w.st = stAwake
 			}
 		}
+	case EvB2G:
+		if e.MQ.Type == refmqtt.CONNACK && e.MQ.RC == 0 && w.st == stDisconnected {
+			w.maybeActive = true
+		}
 	case EvG2C:
 		if e.SNErr != nil {
 			return
 		}
 		switch e.SN.Type {
 		case refsn.CONNACK:
+			w.maybeActive = false
 			if e.SN.RC == refsn.RCAccepted {
 				w.st, w.everActive, w.selfDisc = stActive, true, false
 			}
@@ -262,7 +271,7 @@ func oracleC13(v *View, vd *Verdict) {
 				vd.Add("C13", "C13/disconnect-not-sent/"+lab, "session %s: client was %s when %s happened but got no DISCONNECT", sv.Name, st.st, c.kind)
 			}
 		case st.st == stDisconnected && !st.everActive:
-			if got > 0 {
+			if got > 0 && !st.maybeActive {
 				vd.Add("C13", "C13/disconnect-sent-to-unconnected-client/"+lab, "session %s: client never connected but got DISCONNECT", sv.Name)
 			}
 		case st.st == stAsleep && !st.sleepReq:
